@@ -348,13 +348,28 @@ Proof.
   exists (syntax_error c msg). auto.
 Qed.
 
-(* at the end of the input the span is Span::zero: line 0 *)
-Theorem eof_span_is_line_zero : forall c, c_ahead c = [] ->
-  token c = "EOF"%string /\ cspan c = zero_span (c_file_id c) /\ line_start (fs_span (cspan c)) = 0%N.
-Proof. intros c H. unfold token, cspan. rewrite H. auto. Qed.
+Lemma last_span_snoc : forall l t s, last_span (l ++ [(t, s)]) = Some s.
+Proof. intros l t s. unfold last_span. rewrite rev_unit. reflexivity. Qed.
+
+(* at the end of the input the span is that of the LAST token of the file ... *)
+Theorem eof_span_is_last_token : forall c all t s,
+  c_ahead c = [] -> c_last c = last_span (all ++ [(t, s)]) ->
+  token c = "EOF"%string /\ cspan c = s.
+Proof.
+  intros c all t s Ha Hl. unfold token, cspan. rewrite Ha, Hl, last_span_snoc. auto.
+Qed.
+
+(* ... and Span::zero (line 0) only when the file has no token at all *)
+Theorem empty_file_span_is_zero : forall c, c_ahead c = [] -> c_last c = None ->
+  cspan c = zero_span (c_file_id c) /\ line_start (fs_span (cspan c)) = 0%N.
+Proof. intros c Ha Hl. unfold cspan. rewrite Ha, Hl. auto. Qed.
 
 (* skip keeps the context a suffix of the token list it started from *)
 Definition suffix_of (l all : list (string * fspan)) : Prop := exists pre, all = pre ++ l.
+
+(* the context belongs to the token list `all` *)
+Definition ctx_of (all : list (string * fspan)) (c : context) : Prop :=
+  suffix_of (c_ahead c) all /\ c_last c = last_span all.
 
 Lemma skip_count_suffix : forall l n, suffix_of (skip_count l n) l.
 Proof.
@@ -378,40 +393,82 @@ Qed.
 Lemma suffix_trans : forall a b c, suffix_of a b -> suffix_of b c -> suffix_of a c.
 Proof. intros a b c [p1 H1] [p2 H2]. exists (p2 ++ p1). rewrite <- app_assoc. congruence. Qed.
 
-Theorem skip_keeps_suffix : forall n c all, suffix_of (c_ahead c) all -> suffix_of (c_ahead (skip n c)) all.
+Theorem skip_keeps_ctx : forall n c all, ctx_of all c -> ctx_of all (skip n c).
 Proof.
-  intros n c all H. unfold skip. cbn [c_ahead].
+  intros n c all [H Hl]. split; [|exact Hl]. unfold skip. cbn [c_ahead].
   eapply suffix_trans; [apply skip_trailing_suffix|].
   eapply suffix_trans; [apply skip_count_suffix|exact H].
 Qed.
 
-(* For a context that looks at a token of the lexed file, the line of the error is the lexer's line of
-   that token: 1 + the number of newline characters before it in the source (any source: multi-byte
-   characters, comments, string literals that span lines). *)
-Theorem syntax_error_line : forall tab file file_id s c msg,
-  suffix_of (c_ahead c) (lexed tab file_id s) -> c_ahead c <> [] ->
+Lemma push_keeps_ctx : forall flag c all, ctx_of all c -> ctx_of all (push_skip_newlines flag c).
+Proof.
+  intros flag c all [H Hl]. unfold push_skip_newlines. apply skip_keeps_ctx. split; assumption.
+Qed.
+
+(* In a file that has at least one token, whatever the parser is looking at -- a token, or the end of
+   the input -- its span is the span the lexer gave to a token of that file: the current one, or the
+   last one at the end of the input. *)
+Theorem cspan_is_token_span : forall tab file_id s c,
+  ctx_of (lexed tab file_id s) c -> lexed tab file_id s <> [] ->
+  exists tk, In tk (lex tab s) /\ cspan c = mkFSpan file_id (t_span tk) /\
+             (c_ahead c = [] -> exists pre, lex tab s = pre ++ [tk]).
+Proof.
+  intros tab file_id s c [[pre Hsuf] Hl] Hne. unfold cspan.
+  destruct (c_ahead c) as [|[t sp] rest] eqn:Ha.
+  - unfold lexed in *. destruct (rev (lex tab s)) as [|tk r] eqn:Hr.
+    + apply (f_equal (@rev _)) in Hr. rewrite rev_involutive in Hr. rewrite Hr in Hne. cbn in Hne. congruence.
+    + assert (Hlex : lex tab s = rev r ++ [tk]).
+      { apply (f_equal (@rev _)) in Hr. rewrite rev_involutive in Hr. exact Hr. }
+      rewrite Hl, Hlex, map_app. cbn [map]. rewrite last_span_snoc.
+      exists tk. split; [apply in_app_iff; right; left; reflexivity|].
+      split; [reflexivity|]. intros _. exists (rev r). reflexivity.
+  - assert (Hin : In (t, sp) (lexed tab file_id s)) by (rewrite Hsuf; apply in_app_iff; right; left; reflexivity).
+    unfold lexed in Hin. apply in_map_iff in Hin as (tk & Heq & Hin). inversion Heq; subst t sp.
+    exists tk. split; [exact Hin|]. split; [reflexivity|]. intros H. discriminate.
+Qed.
+
+(* Hence the line of a syntax error is the lexer's line of that token: 1 + the number of newline
+   characters before it in the source (any source: multi-byte characters, comments, string literals that
+   span lines); at the end of the input it is the line of the last token -- never 0. *)
+Theorem syntax_error_line : forall tab file_id s c msg,
+  ctx_of (lexed tab file_id s) c -> lexed tab file_id s <> [] ->
   exists tk, In tk (lex tab s) /\
     fs_file_id (se_span (syntax_error c msg)) = file_id /\
     line_start (fs_span (se_span (syntax_error c msg)))
       = (1 + N.of_nat (count_nl (firstn (N.to_nat (t_cp0 tk)) s)))%N /\
-    se_file (syntax_error (mkCtx (c_ahead c) (c_skip_newlines c) file file_id) msg) = file.
+    se_file (syntax_error c msg) = c_file c /\
+    (c_ahead c = [] -> exists pre, lex tab s = pre ++ [tk]).
 Proof.
-  intros tab file file_id s c msg [pre Hsuf] Hne.
-  destruct (c_ahead c) as [|[t sp] rest] eqn:Ha; [congruence|].
-  assert (Hin : In (t, sp) (lexed tab file_id s)) by (rewrite Hsuf; apply in_app_iff; right; left; reflexivity).
-  unfold lexed in Hin. apply in_map_iff in Hin as (tk & Heq & Hin). inversion Heq; subst t sp.
-  exists tk. split; [exact Hin|]. cbn [syntax_error se_span se_file c_file]. unfold cspan. rewrite Ha.
-  cbn [fs_file_id fs_span]. split; [reflexivity|]. split; [exact (lex_line tab s tk Hin)|reflexivity].
+  intros tab file_id s c msg Hc Hne.
+  destruct (cspan_is_token_span tab file_id s c Hc Hne) as (tk & Hin & Hsp & Hlast).
+  exists tk. split; [exact Hin|]. cbn [syntax_error se_span se_file]. rewrite Hsp. cbn [fs_file_id fs_span].
+  split; [reflexivity|]. split; [exact (lex_line tab s tk Hin)|]. split; [reflexivity|exact Hlast].
 Qed.
 
-(* what outer_statement does: the error for a statement that is not allowed at top level carries the
-   span of the token AFTER the statement (the next line, or line 0 at the end of the input) *)
-Theorem not_outer_error_is_after_the_statement : forall after c' errs,
-  outer_statement_check after false = PErr c' errs ->
-  exists e, errs = [e] /\ se_span e = cspan after.
+(* outer_statement: the error for a statement that is not allowed at top level carries the span of the
+   statement (its first token) and the file of the context *)
+Theorem not_outer_error_is_at_the_statement : forall at_stmt after c' errs,
+  outer_statement_check at_stmt after false = PErr c' errs ->
+  exists e, errs = [e] /\ se_span e = statement_span at_stmt /\ se_file e = c_file after /\ c' = skip 1 after.
 Proof.
-  intros after c' errs H. unfold outer_statement_check in H.
-  apply raise_carries_current_span in H as [-> _]. exists (syntax_error after "Not a valid outer statement"). auto.
+  intros at_stmt after c' errs H. unfold outer_statement_check in H. inversion H; subst.
+  eexists. split; [reflexivity|]. auto.
+Qed.
+
+(* ... whose line is the lexer's line of a token of the file *)
+Theorem not_outer_error_line : forall tab file_id s at_stmt after c' errs,
+  ctx_of (lexed tab file_id s) at_stmt -> lexed tab file_id s <> [] ->
+  outer_statement_check at_stmt after false = PErr c' errs ->
+  exists e tk, errs = [e] /\ In tk (lex tab s) /\
+    se_span e = cspan (push_skip_newlines false at_stmt) /\
+    line_start (fs_span (se_span e)) = (1 + N.of_nat (count_nl (firstn (N.to_nat (t_cp0 tk)) s)))%N.
+Proof.
+  intros tab file_id s at_stmt after c' errs Hc Hne H.
+  apply not_outer_error_is_at_the_statement in H as (e & -> & Hsp & _ & _).
+  destruct (cspan_is_token_span tab file_id s (push_skip_newlines false at_stmt)
+              (push_keeps_ctx false at_stmt _ Hc) Hne) as (tk & Hin & Htk & _).
+  exists e, tk. split; [reflexivity|]. split; [exact Hin|]. split; [exact Hsp|].
+  rewrite Hsp. unfold statement_span. rewrite Htk. cbn [fs_span]. exact (lex_line tab s tk Hin).
 Qed.
 
 (* ============================================================================================== *)
